@@ -65,7 +65,13 @@ func q(s string) string {
 var aliasRe = regexp.MustCompile(`\b(byte|rune)\b`)
 
 func typeKey(t types.Type) string {
-	s := types.TypeString(t, func(p *types.Package) string { return p.Name() })
+	s := types.TypeString(t, func(p *types.Package) string {
+		// services/meta/internal is also "package meta": keep its types (and their heaps) apart
+		if strings.HasSuffix(p.Path(), "/internal") && p.Name() != "internal" {
+			return p.Name() + "pb"
+		}
+		return p.Name()
+	})
 	// byte and rune are aliases: one heap per underlying type
 	return aliasRe.ReplaceAllStringFunc(s, func(m string) string {
 		if m == "byte" {
